@@ -239,7 +239,7 @@ Record reply := mkReply {
 Definition getcid (m : dmsg) : cid :=
   match m_cid m with Some k => k | None => 281474976710656 + m_chaddr m end.
 
-(* AppendOptions: the codes of [order] first (each at most once), then the rest
+(* AppendOptions: the codes of the effective order first (each at most once), then the rest
    (Go map order; canonical here: ascending code) *)
 Fixpoint take_ordered (order : list N) (opts : list (N * bytes)) : list (N * bytes) * list (N * bytes) :=
   match order with
@@ -256,8 +256,14 @@ Fixpoint insert_opt (x : N * bytes) (l : list (N * bytes)) : list (N * bytes) :=
   | y :: r => if fst x <=? fst y then x :: y :: r else y :: insert_opt x r
   end.
 Definition sort_opts (l : list (N * bytes)) : list (N * bytes) := fold_right insert_opt [] l.
+(* RFC 2132 3.3 (fix 94e2701): code 1 is inserted in front of the first 3 of the requested order *)
+Fixpoint insert_mask (order : list N) : list N :=
+  match order with
+  | [] => []
+  | x :: r => if x =? 3 then 1 :: x :: r else x :: insert_mask r
+  end.
 Definition append_options (opts : list (N * bytes)) (order : list N) : list (N * bytes) :=
-  let '(o, rest) := take_ordered (order ++ [1; 33; 3]) opts in o ++ sort_opts rest.
+  let '(o, rest) := take_ordered (insert_mask order ++ [1; 33; 3]) opts in o ++ sort_opts rest.
 
 Definition lease_time_opt : N * bytes := (51, ipb (Z.to_N lease_secs)).
 
